@@ -64,6 +64,20 @@ def ldlStep (cmd : String) : P (List String) := do
     | .ok (L, D) =>
       let x := match ldltSolve n a b with | .ok y => y | .error _ => Vec.const n QQ.poison
       pure ["info 0", s!"D {vecStr D}", s!"L {matStr L}", s!"x {vecStr x}"]
+  | "ldl.densem" =>
+    let n ← nat
+    let _up ← nat
+    let k ← nat
+    let a ← mat n n
+    let b ← mat n k
+    match ldlt n a with
+    | .error _ => pure ["info 1"]
+    | .ok _ =>
+      -- column by column through the same recursion
+      let cols : Vector (Vec QQ n) k := Vector.ofFn fun j =>
+        match ldltSolve n a (Vector.ofFn fun i => b[i][j]) with | .ok y => y | .error _ => Vec.const n QQ.poison
+      let x : Mat QQ n k := Mat.ofFn fun i j => cols[j][i]
+      pure ["info 0", s!"X {matStr x}", s!"Xin {matStr x}"]
   | "util.transpose" =>
     let ⟨_, _, a⟩ ← rawDense
     pure [s!"CT {matStr (Mat.transpose a)}", "outer 1"]
